@@ -78,7 +78,12 @@ theorem timeout_precommitWait_progress (cfg : Config) (nb : Option Nat) (σ : St
       cases hst : σ.step <;> simp [Step.toNat] <;> exact absurd hst hs
     simp [toNat_precommitWait]; omega)]
   simp only
-  have hge := enterNewRound_round_ge cfg nb (σ.round + 1) (enterPrecommit cfg σ.height σ.round σ)
+  have hst := enterPrecommit_step cfg σ
+  have hnc : (enterPrecommit cfg σ.height σ.round σ).step ≠ .commit := by
+    by_cases h6 : σ.step.toNat < 6
+    · rw [hst.2.2.1 h6]; decide
+    · rw [hst.2.2.2 (by omega)]; exact hs
+  have hge := enterNewRound_round_ge cfg nb (σ.round + 1) (enterPrecommit cfg σ.height σ.round σ) hnc
   rw [enterPrecommit_height] at hge
   exact ⟨by simp, hge⟩
 
@@ -86,7 +91,7 @@ theorem timeout_precommitWait_progress (cfg : Config) (nb : Option Nat) (σ : St
 
 /-- +2/3 any prevotes for a later round (vote already in the set): the node moves there -/
 theorem afterPrevote_round_skip (cfg : Config) (nb : Option Nat) (vr : Nat) (σ : State) (hr : σ.round < vr)
-    (hany : hasAny cfg.powers (σ.slots .prevote σ.height vr) = true) :
+    (hc : σ.step ≠ .commit) (hany : hasAny cfg.powers (σ.slots .prevote σ.height vr) = true) :
     (afterPrevote cfg nb vr σ).height = σ.height ∧ vr ≤ (afterPrevote cfg nb vr σ).round := by
   unfold afterPrevote
   simp only [hany]
@@ -94,12 +99,13 @@ theorem afterPrevote_round_skip (cfg : Config) (nb : Option Nat) (vr : Nat) (σ 
   unfold prevoteSwitch
   rw [if_pos (by rw [k.2.1]; simp [hr])]
   have := enterNewRound_round_ge cfg nb vr (polkaUpdate vr (maj23 cfg.powers (σ.slots .prevote σ.height vr)) σ)
+    (by rw [k.2.2.1]; exact hc)
   rw [k.1] at this
   exact ⟨by rw [enterNewRound_height, k.1], this⟩
 
 theorem enterPrecommit_round_ge' (cfg : Config) (h r : Nat) (σ : State) (hr : r ≤ σ.round) :
     r ≤ (enterPrecommit cfg h r σ).round := by
-  unfold enterPrecommit
+  rw [enterPrecommit_le cfg h r σ hr]
   split
   · exact hr
   · exact Nat.le_refl _
@@ -107,10 +113,10 @@ theorem enterPrecommit_round_ge' (cfg : Config) (h r : Nat) (σ : State) (hr : r
 /-- +2/3 any precommits for a later round (vote already in the set): the node moves there (or
 commits) -/
 theorem afterPrecommit_round_skip (cfg : Config) (nb : Option Nat) (vr : Nat) (σ : State) (hr : σ.round < vr)
-    (hany : hasAny cfg.powers (σ.slots .precommit σ.height vr) = true) :
+    (hc : σ.step ≠ .commit) (hany : hasAny cfg.powers (σ.slots .precommit σ.height vr) = true) :
     (afterPrecommit cfg nb vr σ).height = σ.height + 1 ∨
     ((afterPrecommit cfg nb vr σ).height = σ.height ∧ vr ≤ (afterPrecommit cfg nb vr σ).round) := by
-  have hge := enterNewRound_round_ge cfg nb vr σ
+  have hge := enterNewRound_round_ge cfg nb vr σ hc
   unfold afterPrecommit
   simp only
   split
